@@ -51,7 +51,7 @@ ASSUMPTIONS = [
     "reference CP-ALS / ST-HOSVD / HOOI in mc/props/C18.py and Kruskal / Tucker evaluation, ttm, mttkrp in mc/refmodel.py "
     "(einsum on the explicit array, numpy.linalg.solve / eigh) are correct; they are used for admissibility and for "
     "expanding the returned factors, never as the expected value of a run",
-    "data are explicit small integers; scale factors are 4 and 1/4 so that scaling is exact; expanded models are compared "
+    "data are explicit small integers; scale factors are powers of two (4, 1/4, 2^-24, 2^20) so that scaling is exact; expanded models are compared "
     "with 1e-8*max|X|, squared residuals and (1-fit)^2 with 1e-9 (relative to ||X||^2), CP-APR/GCP objectives with "
     "1e-8*max(1,|f|) (DESIGN 4.3)",
     "random starts: numpy's global stream under np.random.seed(s), s from an enumerated alphabet of three seeds; ARPACK's "
@@ -65,7 +65,7 @@ ASSUMPTIONS = [
     "GCP/L-BFGS-B takes part only in relations with identical arithmetic",
 ]
 BOUNDS = {
-    "quick": "shapes (3,4),(2,3,4),(3,3,3), maxiters {1,2,3}, seeds {0,1,2}, scale {4,1/4}, ALL N! mode permutations.  "
+    "quick": "shapes (3,4),(2,3,4),(3,3,3), maxiters {1,2,3}, seeds {0,1,2}, scale {4,1/4,2^-24,2^20}, ALL N! mode permutations.  "
              "cp_als: 4 members (generic, rank-2+noise, exact rank 2, counts with an empty slice) x rank 1..3 x explicit "
              "integer guess x 3 dimorders x optdims {all, drop-first} x stoptol {0,1e-2}; + random starts (3 seeds) and "
              "nvecs starts; variants: sptensor (printitn 0,1), printitn {1,2,3}, scale (dense, sparse), relabel.  cp_apr: 4 "
@@ -562,7 +562,7 @@ def variants(case):
         if kind == "given":
             out += [{"rel": "sparse", "printitn": 0}, {"rel": "sparse", "printitn": 1}]
             out += [{"rel": "print", "printitn": p} for p in (1, 2, 3)]
-            out += [{"rel": "scale", "c": c, "holder": "tensor"} for c in (4.0, 0.25)]
+            out += [{"rel": "scale", "c": c, "holder": "tensor"} for c in (4.0, 0.25, 2.0 ** -24, 2.0 ** 20)]
             out += [{"rel": "scale", "c": 4.0, "holder": "sptensor"}]
             out += [{"rel": "relabel", "perm": p, "holder": "tensor"} for p in perms]
             if th:
@@ -589,12 +589,12 @@ def variants(case):
                     {"rel": "print", "printitn": 1, "printinneritn": 0}]
     elif alg == "hosvd":
         out += [{"rel": "print", "verbosity": v} for v in ((1, 3, 10) + ((-1, 6) if th else ()))]
-        out += [{"rel": "scale", "c": c} for c in (4.0, 0.25)]
+        out += [{"rel": "scale", "c": c} for c in (4.0, 0.25, 2.0 ** -24, 2.0 ** 20)]
         out += [{"rel": "relabel", "perm": p} for p in perms]
     elif alg == "tucker_als":
         if kind == "given":
             out += [{"rel": "print", "printitn": p} for p in (1, 2, 3)]
-            out += [{"rel": "scale", "c": c} for c in (4.0, 0.25)]
+            out += [{"rel": "scale", "c": c} for c in (4.0, 0.25, 2.0 ** -24, 2.0 ** 20)]
             out += [{"rel": "relabel", "perm": p} for p in perms]
         else:
             out += [{"rel": "seed"}, {"rel": "print", "printitn": 1}]
